@@ -15,13 +15,21 @@ import os
 import struct
 from fractions import Fraction
 
+import sys
+
 from vlib import common as C
+from checks import c05_doc as D
+
+sys.path.insert(0, os.path.join(C.ROOT, "tools"))
+import translate_errf  # noqa: E402
+from cxx2lean import Refuse  # noqa: E402
 
 EPS2 = 2.0 * 2.0 ** -52            # issmall threshold
 DMIN = 2.0 ** -1022
 DMAX = 1.7976931348623157e308
 PEN = DMAX / 100.0
 KINDS = ["mae", "rmae", "mse", "count"]
+PEN_TYPES = ["d", "d", "fn", "fl", "i", "u", "l", "ul", "b"]
 PROGS1 = ["x1", "x1", "x1", "x2", "div", "ln", "add", "sub", "mul", "abs", "neg", "mulbig", "big", "tiny"]
 
 
@@ -242,6 +250,50 @@ class Gen:
             rows.append((t, x1, x2, d))
         return rows
 
+    # -- classification: one output style per class, aimed at degenerate distributions ------
+    CLS_STYLES = ["spread", "spread", "const", "const", "undef_all", "undef_some", "huge", "tiny",
+                  "nearconst", "any", "single", "zeros"]
+
+    def cls_inputs(self, style, base):
+        """(x1, x2) of one example of a class whose outputs follow `style`"""
+        r = self.r
+        if style == "const":
+            return base
+        if style == "undef_all":
+            return (None, base[1])
+        if style == "undef_some":
+            return (None, base[1]) if r.chance(0.35) else (base[0], base[1])
+        if style == "huge":
+            return (self.dbl(5), r.choice([1.0, base[1], self.dbl(5)]))
+        if style == "tiny":
+            return (self.dbl(6), r.choice([1.0, base[1], self.dbl(6)]))
+        if style == "nearconst":     # variance around the issmall threshold (2.2e-8)^2 ~ 4.4e-16
+            return (base[0] + r.choice([0.0, 0.0, 1.5e-8, 2e-8, 2.2e-8, 3e-8, 1e-7, -2e-8]), base[1])
+        if style == "zeros":         # division by zero / ln(0): no value
+            return (r.choice([0.0, -0.0, base[0]]), r.choice([0.0, -0.0, base[1]]))
+        if style == "any":
+            return (self.dbl(), self.dbl())
+        # spread
+        return (base[0] + float(r.between(-3, 4)) * r.choice([1.0, 0.25]), base[1] + float(r.between(-1, 2)))
+
+    def cls_rows_structured(self, prog, ncl):
+        r = self.r
+        same_base = r.chance(0.15)          # every class around the same point: identical distributions
+        base0 = (float(r.between(-20, 21)), float(r.between(1, 9)))
+        rows = []
+        for c in range(ncl):
+            style = r.choice(self.CLS_STYLES)
+            base = base0 if same_base else r.choice([(float(r.between(-40, 41)), float(r.between(-3, 9))),
+                                                     (self.dbl(3), self.dbl(3)), (self.dbl(7), 1.0),
+                                                     (float(c * 5), 1.0)])
+            k = 1 if style == "single" else r.choice([1, 2, 2, 3, 5, 8, r.between(2, 30)])
+            for _ in range(k):
+                x1, x2 = self.cls_inputs(style, base)
+                for v in (x1, x2):
+                    assert v is None or math.isfinite(v)
+                rows.append((c, x1, x2, r.choice([0, 0, 3, r.below(500)])))
+        return rows
+
     def nrows(self, big):
         r = self.r
         k = r.below(10)
@@ -259,9 +311,84 @@ def reg_line(kind, fast, prog, rows, pen=None):
     return head + "".join(f" {tok(t)} {tok(x1)} {tok(x2)} {d}" for t, x1, x2, d in rows)
 
 
-def cls_line(kind, xslot, prog, rows):
-    return f"cls {kind} {xslot} {prog} {len(rows)}" + "".join(
+def cls_line(kind, xslot, prog, rows, fast=False):
+    return f"{'clsf' if fast else 'cls'} {kind} {xslot} {prog} {len(rows)}" + "".join(
         f" {c} {tok(x1)} {tok(x2)} {d}" for c, x1, x2, d in rows)
+
+
+def hist_case(g, rng):
+    """one evaluator object, a dataframe that changes under it (see harness `hist`)"""
+    r = rng
+    cls = r.chance(0.6)
+    prog = g.prog()
+    ops = []
+
+    def rowtxt(rows):
+        return f"{len(rows)}" + "".join(f" {c if cls else tok(c)} {tok(x1)} {tok(x2)} {d}" for c, x1, x2, d in rows)
+
+    if cls:
+        kind = r.choice(["dyn", "gau", "gau", "bin"])
+        ncl = 2 if kind == "bin" else r.choice([2, 2, 3, 4])
+
+        def rows_for(k, lo=1):
+            rows = g.cls_rows_structured(prog, k) if r.chance(0.5) else \
+                [(j % k, g.dbl(r.choice([0, 3, None])), g.dbl(r.choice([0, 3, None])), r.choice([0, 0, 2, r.below(50)]))
+                 for j in range(r.between(max(k, lo), 14))]
+            rows = rows[:40]
+            if len({c for c, _, _, _ in rows}) < k:      # every class present at least once
+                rows += [(c, float(c), 1.0, 0) for c in range(k)]
+            for j in range(len(rows) - 1, 0, -1):
+                k2 = r.below(j + 1)
+                rows[j], rows[k2] = rows[k2], rows[j]
+            return rows
+        more = ncl if kind == "bin" else ncl + r.choice([1, 1, 2])
+    else:
+        kind = r.choice(KINDS)
+
+        def rows_for(k, lo=1):
+            return g.rows(prog, r.between(lo, 14), r.chance(0.1))
+        ncl = more = 0
+    fast = r.chance(0.1)
+    shape = r.below(6)
+    first = rows_for(ncl)
+    if shape == 0:                       # built on the still EMPTY frame, filled later
+        ops = ["C", "L " + rowtxt(first), "V"]
+    elif shape == 1:                     # rows appended after a first evaluation
+        extra = [(c % max(ncl, 1) if cls else c, x1, x2, d) for c, x1, x2, d in rows_for(ncl)]
+        ops = ["L " + rowtxt(first), "C", "V", "A " + rowtxt(extra), "V"]
+    elif shape == 2:                     # the importer run again: MORE classes than at construction
+        ops = ["L " + rowtxt(first), "C", "V", "L " + rowtxt(rows_for(more)), "V"]
+    elif shape == 3:                     # rows erased (a whole class may disappear from the rows, not from the table)
+        ops = ["L " + rowtxt(first), "C", "V", f"E {r.between(1, max(1, len(first) - 1))}", "V"]
+    elif shape == 4:                     # built on the empty frame, then everything
+        second = rows_for(more)
+        extra = [(c % max(more, 1) if cls else c, x1, x2, d) for c, x1, x2, d in rows_for(more)]
+        ops = ["C", "V", "L " + rowtxt(first), "V", "L " + rowtxt(second), "V", "A " + rowtxt(extra), "V",
+               f"E {r.between(1, max(1, len(second) - 1))}", "V", "V"]
+    else:                                # FEWER classes in the rows than in the class table (reload of a subset)
+        sub = [x for x in first if x[0] != (ncl - 1)] if cls and ncl > 2 else first[:max(1, len(first) // 2)]
+        ops = ["L " + rowtxt(first), "C", "V", "L " + rowtxt(sub or first), "V", "V"]
+    return f"hist {'cls' if cls else 'reg'} {kind} {1 if fast else 0} {r.choice([1, 2, 10])} {prog} " + " ".join(ops)
+
+
+def big_cases(chk, rng, searching):
+    """scale-directed cases (n = 1e5+1, 2e5+1, 1e6 examples of which k = 1, 2 are wrong): tolerance-based shortcuts
+    (`almost_equal` has a RELATIVE tolerance of 1e-5) must not hide a handful of mistakes.  A short list in the quick
+    tier, every evaluator x size x k in the thorough tier and whenever a proof / the tie broke."""
+    kinds = ["dyn", "gau", "bin", "count", "mae", "mse", "rmae"]
+    if chk.tier == "quick" and not searching:
+        plan = [("dyn", 200001, 1), ("dyn", 100001, 1), ("gau", 200001, 1), ("bin", 200001, 2),
+                ("count", 200001, 1), ("mae", 100001, 1)]
+    else:
+        plan = [(k, n, w) for k in kinds for n in (100001, 200001, 1000000) for w in (1, 2)]
+    out = []
+    for kind, n, w in plan:
+        pos = set()
+        while len(pos) < w:
+            pos.add(5 * (2 * rng.below(n // 10 - 1) + 1))        # odd (class B) and a multiple of 5 (visited by fast())
+        fast = kind not in ("dyn", "gau", "bin") and rng.chance(0.5)
+        out.append(f"big {kind} {1 if fast else 0} {rng.choice([1, 2, 10])} {n} {w} " + " ".join(map(str, sorted(pos))))
+    return out
 
 
 def gen_cases(chk, rng):
@@ -286,31 +413,80 @@ def gen_cases(chk, rng):
                 k2 = rng.below(j + 1)
                 perm[j], perm[k2] = perm[k2], perm[j]
             lines.append(reg_line(kind, fast, prog, perm, pen))
-    ncls = 6000 if quick else 45000
+    ncls = 5400 if quick else 40000
     for i in range(ncls):
-        kind = ["dyn", "gau", "bin"][i % 3]
+        kind = ["dyn", "gau", "bin", "gau"][i % 4]
         prog = g.prog()
-        n = g.nrows(not quick or rng.chance(0.3))
         ncl = 2 if kind == "bin" else rng.choice([2, 2, 3, 4, 7])
-        n = max(n, ncl)
-        style = rng.below(6)
-        pu = rng.choice([0.0, 0.0, 0.05, 0.3, 1.0])
-        rows = []
-        for j in range(n):
-            c = j if j < ncl else (rng.below(ncl) if rng.chance(0.8) else 0)
-            fl = None if style >= 4 else rng.choice([style, None])
-            x1 = None if rng.chance(pu) else g.dbl(fl)
-            x2 = None if rng.chance(pu / 2) else g.dbl(fl)
-            rows.append((c, x1, x2, rng.choice([0, 0, 3, rng.below(500)])))
+        if rng.chance(0.5):
+            rows = g.cls_rows_structured(prog, ncl)
+        else:
+            n = max(g.nrows(not quick or rng.chance(0.3)), ncl)
+            style = rng.below(6)
+            pu = rng.choice([0.0, 0.0, 0.05, 0.3, 1.0])
+            rows = []
+            for j in range(n):
+                c = j if j < ncl else (rng.below(ncl) if rng.chance(0.8) else 0)
+                fl = None if style >= 4 else rng.choice([style, None])
+                x1 = None if rng.chance(pu) else g.dbl(fl)
+                x2 = None if rng.chance(pu / 2) else g.dbl(fl)
+                rows.append((c, x1, x2, rng.choice([0, 0, 3, rng.below(500)])))
         # shuffle so that class ids are not simply in order of the first rows
         for j in range(len(rows) - 1, 0, -1):
             k2 = rng.below(j + 1)
             rows[j], rows[k2] = rows[k2], rows[j]
-        lines.append(cls_line(kind, rng.choice([1, 2, 10, 10, 17]), prog, rows))
+        lines.append(cls_line(kind, rng.choice([1, 2, 10, 10, 17]), prog, rows, fast=rng.chance(0.1)))
     for v in [0.0, -0.0, 1.0, -2.5, DMAX, -DMAX, 5e-324, float("inf"), float("-inf"), float("nan")]:
         lines.append("ga " + tok(v))
     for _ in range(60 if quick else 600):
         lines.append("ga " + tok(g.dbl()))
+    # GA / DE evaluators: finite and non-finite objective values, operator() and fast()
+    special = [0.0, -0.0, 1.0, -2.5, DMAX, -DMAX, 5e-324, float("inf"), float("-inf"), float("nan")]
+    for cmd in ("gaf", "de", "def"):
+        for v in special:
+            lines.append(cmd + " " + tok(v))
+        for _ in range(20 if quick else 200):
+            lines.append(cmd + " " + tok(g.dbl()))
+    # constrained evaluator: every penalty shape x (GA / DE objective | error-based evaluator)
+    def pen_case():
+        ty = rng.choice(PEN_TYPES)
+        if ty in ("d", "fn"):
+            v = rng.choice([0.0, -0.0, 1.0, 2.5, 1e300, DMAX, 5e-324, g.dbl(), abs(g.dbl()),
+                            float("inf"), float("nan"), -1.0])
+            return ty, tok(v)
+        if ty == "fl":
+            v = rng.choice([0.0, 1.0, 0.1, 3.4e38, 1e-45, abs(g.dbl(3)), float("inf")])
+            return ty, tok(v)
+        if ty == "b":
+            return ty, str(rng.below(2))
+        if ty == "u":
+            return ty, str(rng.choice([0, 1, 2, 3, 1000, 2 ** 31, 2 ** 32 - 1, rng.below(2 ** 32)]))
+        if ty == "ul":
+            return ty, str(rng.choice([0, 1, 3, 2 ** 53 + 1, 2 ** 63, rng.below(2 ** 40)]))
+        if ty == "i":
+            return ty, str(rng.choice([0, 1, 2, 7, 2 ** 31 - 1, rng.below(2 ** 20), -1]))
+        return ty, str(rng.choice([0, 1, 5, 2 ** 53 + 1, 2 ** 62, rng.below(2 ** 50), -3]))
+    for _ in range(260 if quick else 2600):
+        ty, pv = pen_case()
+        v = rng.choice(special + [g.dbl(), g.dbl()])
+        lines.append(f"gac {ty} {pv} {rng.below(2)} {rng.choice(['ga', 'de'])} {tok(v)}")
+    for i in range(500 if quick else 5000):
+        ty, pv = pen_case()
+        kind = ["mae", "count"][i % 2]          # the harness instantiates the typed penalties for these two
+        prog = rng.choice(PROGS1)               # … and for individuals
+        fast = rng.chance(0.3)
+        n = rng.between(100, 130) if fast else g.nrows(False)
+        rows = g.rows(prog, n, rng.chance(0.1))
+        lines.append(f"conp {ty} {pv} " + reg_line(kind, fast, prog, rows)[4:])
+    # histories: the dataframe changes under a living evaluator object
+    for _ in range(700 if quick else 6000):
+        lines.append(hist_case(g, rng))
+    # test_evaluator: histories of calls on one object
+    for _ in range(150 if quick else 1500):
+        k = rng.between(1, 25)
+        pool = rng.between(1, 9)
+        ids = [rng.below(pool) * rng.choice([1, 1, 3]) for _ in range(k)]
+        lines.append(f"tev {rng.choice(['distinct', 'fixed', 'random'])} {rng.below(2)} {k} " + " ".join(map(str, ids)))
     for v in [0.0, EPS2, -EPS2, math.nextafter(EPS2, 0), -math.nextafter(EPS2, 0), 1.0, float("inf"), float("nan"), 5e-324]:
         lines.append("small " + tok(v))
     return lines
@@ -320,12 +496,33 @@ def gen_cases(chk, rng):
 # one pass: harness -> model -> compare + oracle
 # ---------------------------------------------------------------------------
 
+def parse_cls(line, cpp):
+    """fields of a cls / clsf case and of the harness answer (None when the answer is malformed)"""
+    t, c = line.split(), cpp.split()
+    n = int(t[4])
+    try:
+        ti, li, dpos, mi = c.index("tags"), c.index("labels"), c.index("diff"), c.index("mouts")
+        ncl = int(c[c.index("classes") + 1])
+        members = int(c[c.index("members") + 1])
+    except ValueError:
+        return None
+    mo = c[mi + 1:mi + 1 + members * n]
+    if len(mo) != members * n or len(c[dpos + 1:dpos + 1 + n]) != n:
+        return None
+    rows = t[5:]
+    return {"kind": t[1], "xslot": int(t[2]), "n": n, "ncl": ncl, "members": members,
+            "mouts": [mo[m * n:(m + 1) * n] for m in range(members)],
+            "tags": c[ti + 1:ti + 1 + 2 * n], "labels": [int(x) for x in c[li + 1:li + 1 + n]],
+            "after": [int(x) for x in c[dpos + 1:dpos + 1 + n]],
+            "before": [int(rows[4 * i + 3]) for i in range(n)], "fit": c[2] if c[1] == "fit" else None}
+
+
 def lean_request(line, cpp):
     """the model's input for a harness case: the program's outputs come from the harness"""
     t = line.split()
     c = cpp.split()
-    if t[0] in ("reg", "con"):
-        at = 1 if t[0] == "reg" else 2
+    if t[0] in ("reg", "con", "conp"):
+        at = {"reg": 1, "con": 2, "conp": 3}[t[0]]
         kind, fast, n = t[at], t[at + 1] == "1", int(t[at + 3])
         try:
             o = c.index("outs")
@@ -339,20 +536,29 @@ def lean_request(line, cpp):
         step = 5 if fast else 1
         if t[0] == "reg":
             return f"soe {kind} {step} {n}" + body
-        return f"csoe {t[1]} {kind} {step} {n}" + body
-    if t[0] == "cls":
-        n = int(t[4])
-        try:
-            ti, li = c.index("tags"), c.index("labels")
-            ncl = int(c[c.index("classes") + 1])
-        except ValueError:
+        if t[0] == "con":
+            return f"csoe {t[1]} {kind} {step} {n}" + body
+        return f"cpsoe {t[1]} {t[2]} {kind} {step} {n}" + body
+    if t[0] in ("cls", "clsf"):
+        f = parse_cls(line, cpp)
+        if f is None:
             return None
-        tags, labels = c[ti + 1:ti + 1 + 2 * n], c[li + 1:li + 1 + n]
-        rows = t[5:]
-        if t[1] == "gau":
-            return f"gau {ncl} {n}" + "".join(
-                f" {tags[2 * i]} {tags[2 * i + 1]} {labels[i]} {rows[4 * i + 3]}" for i in range(n))
-        return f"cnt {n}" + "".join(f" {tags[2 * i]} {labels[i]} {rows[4 * i + 3]}" for i in range(n))
+        n, m = f["n"], f["members"]
+        body = "".join(f" {f['labels'][i]} {f['before'][i]}" + "".join(" " + f["mouts"][k][i] for k in range(m))
+                       for i in range(n))
+        if f["kind"] == "dyn":
+            return f"dynx {f['ncl']} {f['xslot']} {m} {n}" + body
+        if f["kind"] == "gau":
+            return f"gaux {f['ncl']} {m} {n}" + body
+        return f"binx {m} {n}" + body
+    if t[0] in ("gaf", "de", "def"):
+        return "ga " + t[1]              # `fast()` is not overridden: the same function
+    if t[0] == "gac":
+        return f"gac {t[1]} {t[2]} {t[5]}"
+    if t[0] == "tev":
+        return f"tev {t[1]} " + " ".join(t[3:])
+    if t[0] in ("big", "hist"):
+        return None                      # judged by the property's oracle only / expanded into plain cases
     return line   # ga / small: same request
 
 
@@ -362,8 +568,13 @@ def cpp_canon(line, cpp):
     if not c or c[0] != "ok":
         return cpp
     t = line.split()
-    if t[0] == "ga":
+    if t[0] in ("ga", "gaf", "de", "def", "gac", "tev"):
         return " ".join(c[1:])
+    if t[0] in ("cls", "clsf"):
+        f = parse_cls(line, cpp)
+        if f is None:
+            return cpp
+        return f"fit {f['fit']} tags " + " ".join(f["tags"]) + " diff " + " ".join(map(str, f["after"]))
     keep = []
     i = 1
     while i < len(c) and c[i] not in ("outs", "classes", "tags", "labels", "diff"):
@@ -374,7 +585,35 @@ def cpp_canon(line, cpp):
     return " ".join(keep)
 
 
-def oracle(line, cpp):
+def pen_value(ty, v):
+    """the penalty as the number the penalty function returned (a Python float / int)"""
+    if ty in ("d", "fn"):
+        return untok(v)
+    if ty == "fl":
+        x = untok(v)
+        if x != x or math.isinf(x):
+            return x
+        try:
+            return struct.unpack("<f", struct.pack("<f", x))[0]
+        except OverflowError:
+            return math.copysign(math.inf, x)
+    if ty == "b":
+        return 1 if int(v) else 0
+    return int(v)
+
+
+def pen_oracle(ty, v, first, name):
+    """documented: the first component is minus the penalty"""
+    pv = pen_value(ty, v)
+    want = -float(pv)
+    if (want != want and first != first) or first == want:
+        return []
+    return [(f"{name}: first component {first!r} is not minus the penalty {pv!r} (penalty function returning "
+             f"{ {'d': 'double', 'fn': 'double (std::function)', 'fl': 'float', 'i': 'int', 'u': 'unsigned', 'l': 'long long', 'ul': 'std::size_t', 'b': 'bool'}[ty]})",
+             {"evaluator": "constrained", "kind": "prepend", "ptype": ty})]
+
+
+def oracle(line, cpp, stats=None):
     """Judge one harness answer against the PROPERTY (no Lean involved).
     Returns a list of (what, tags)."""
     bad = []
@@ -387,20 +626,53 @@ def oracle(line, cpp):
             if cpp.strip() != want:
                 bad.append((f"issmall({v!r}) returned {cpp}, documented {want}", {"evaluator": "issmall"}))
         return bad
-    if t[0] == "ga":
-        v = untok(t[1])
+    if t[0] in ("ga", "gaf", "de", "def", "gac"):
+        v = untok(t[5] if t[0] == "gac" else t[1])
         k = int(c[2])
         vals = c[3:3 + k]
+        name = ("ga_evaluator<i_de>" if (t[0] in ("de", "def") or (t[0] == "gac" and t[4] == "de")) else "ga_evaluator") + \
+               (".fast" if (t[0] in ("gaf", "def") or (t[0] == "gac" and t[3] == "1")) else "")
+        if t[0] == "gac":
+            if k < 1:
+                return [(f"constrained {name} returned an empty fitness", {"evaluator": "constrained", "kind": "shape"})]
+            bad += pen_oracle(t[1], t[2], untok(vals[0]), "constrained_evaluator around " + name)
+            vals, k = vals[1:], k - 1
         if math.isfinite(v):
             if k != 1 or vals[0] != tok(v):
-                bad.append((f"ga_evaluator returned {c[1:]} for the finite objective value {v!r}",
+                bad.append((f"{name} returned {c[1:]} for the finite objective value {v!r}",
                             {"evaluator": "ga", "kind": "value"}))
         elif k != 0:
-            bad.append((f"ga_evaluator returned {c[1:]} for the non-finite objective value {v!r} (documented: empty fitness)",
+            bad.append((f"{name} returned {c[1:]} for the non-finite objective value {v!r} (documented: empty fitness)",
                         {"evaluator": "ga", "kind": "nonfinite"}))
         return bad
-    if t[0] in ("reg", "con"):
-        at = 1 if t[0] == "reg" else 2
+    if t[0] == "tev":
+        # documented: `fixed` the same fitness for everybody; `distinct` a time-invariant fitness per individual,
+        # different individuals different values; `random` a time-invariant fitness per individual.  (WHICH
+        # numbers is not documented: that is compared with the model only.)
+        kind, k = t[1], int(t[3])
+        ids = t[4:4 + k]
+        got = c[2:2 + k]
+        why = None
+        if len(got) != k or any(g.startswith("size=") for g in got):
+            why = "a fitness that does not have one component"
+        elif any(g == "nan" for g in got):
+            why = "a NaN fitness"
+        elif kind == "fixed" and len(set(got)) > 1:
+            why = "different fitnesses from a `fixed` evaluator"
+        else:
+            first = {}
+            for x, g in zip(ids, got):
+                if first.setdefault(x, g) != g:
+                    why = f"two different fitnesses for individual {x} (not time-invariant)"
+                    break
+            if why is None and kind == "distinct" and len(set(first.values())) != len(first):
+                why = "the same fitness for two different individuals of a `distinct` evaluator"
+        if why:
+            bad.append((f"test_evaluator({kind}){'.fast' if t[2] == '1' else ''}: history {ids} gave "
+                        f"{[untok(g) if g[0] != 's' else g for g in got]}: {why}", {"evaluator": "test", "kind": kind}))
+        return bad
+    if t[0] in ("reg", "con", "conp"):
+        at = {"reg": 1, "con": 2, "conp": 3}[t[0]]
         kind, fast, n = t[at], t[at + 1] == "1", int(t[at + 3])
         step = 5 if fast else 1
         rows = t[at + 4:]
@@ -414,11 +686,11 @@ def oracle(line, cpp):
         else:
             if c[1] != "fitv" or c[2] != "2":
                 return [("constrained fitness is %s" % " ".join(c[1:o]), {"evaluator": "constrained", "kind": "shape"})]
-            pen = untok(t[1])
             first = untok(c[3])
-            if tok(first) != tok(-pen):
-                bad.append((f"constrained_evaluator: first component {first!r} is not minus the penalty {pen!r}",
-                            {"evaluator": "constrained", "kind": "prepend"}))
+            if t[0] == "con":
+                bad += pen_oracle("d", t[1], first, "constrained_evaluator")
+            else:
+                bad += pen_oracle(t[1], t[2], first, "constrained_evaluator")
             fit = untok(c[4])
         tg = [untok(rows[4 * i]) for i in range(n)]
         before = [int(rows[4 * i + 3]) for i in range(n)]
@@ -428,7 +700,6 @@ def oracle(line, cpp):
         elif fit > 0:
             bad.append((f"{kind}_evaluator returned a positive fitness {fit!r}", dict(tags, kind="positive")))
         vis = visited_rows(n, step)
-        errs = [doc_err(kind, outs[i], tg[i]) for i in vis]
         visset = set(vis)
         wrongrows = []
         for i in range(n):
@@ -461,22 +732,18 @@ def oracle(line, cpp):
                     bad.append((f"{kind}_evaluator: fitness {fit!r} is not minus the mean documented error {mean!r}",
                                 dict(tags, kind="mean")))
         return bad
-    if t[0] == "cls":
-        kind, n = t[1], int(t[4])
-        rows = t[5:]
-        ti, li, dpos = c.index("tags"), c.index("labels"), c.index("diff")
-        ncl = int(c[c.index("classes") + 1])
-        tg = c[ti + 1:ti + 1 + 2 * n]
-        lab = [int(x) for x in c[li + 1:li + 1 + n]]
-        after = [int(x) for x in c[dpos + 1:dpos + 1 + n]]
-        before = [int(rows[4 * i + 3]) for i in range(n)]
+    if t[0] in ("cls", "clsf"):
+        f = parse_cls(line, cpp)
+        name = {"dyn": "dyn_slot", "gau": "gaussian", "bin": "binary"}[t[1]] + (".fast" if t[0] == "clsf" else "")
+        tags = {"evaluator": name.split(".")[0]}
+        if f is None or f["fit"] is None:
+            return [("fitness shape " + " ".join(c[1:3]), dict(tags, kind="shape"))]
+        kind, n, ncl = f["kind"], f["n"], f["ncl"]
+        tg, lab, after, before = f["tags"], f["labels"], f["after"], f["before"]
         tl = [int(tg[2 * i]) for i in range(n)]
         sure = [untok(tg[2 * i + 1]) for i in range(n)]
-        name = {"dyn": "dyn_slot", "gau": "gaussian", "bin": "binary"}[kind]
-        tags = {"evaluator": name}
-        if c[1] != "fit":
-            return [("fitness shape " + " ".join(c[1:3]), dict(tags, kind="shape"))]
-        fit = untok(c[2])
+        fit = untok(f["fit"])
+        # (a) against the answers of a separately built classifier object
         nwrong = sum(1 for i in range(n) if tl[i] != lab[i])
         if fit != fit:
             bad.append((f"{name}_evaluator returned a NaN fitness", dict(tags, kind="nan")))
@@ -494,32 +761,135 @@ def oracle(line, cpp):
             i = wr[0]
             bad.append((f"{name}_evaluator: difficulty of example {i} went {before[i]} -> {after[i]} "
                         f"(tag {tl[i]}, label {lab[i]}); {len(wr)} rows differ", dict(tags, kind="difficulty")))
+        if any(not (s == s and 0.0 <= s <= 1.0) for s in sure) and kind != "bin":
+            i = [k for k in range(n) if not (sure[k] == sure[k] and 0.0 <= sure[k] <= 1.0)][0]
+            bad.append((f"{name}: confidence {sure[i]!r} of example {i} is outside [0, 1]", dict(tags, kind="confidence")))
+        # (b) against the DOCUMENTED rule, recomputed from the outputs of the member programs
+        mouts = [[untok(x) for x in row] for row in f["mouts"]]
+        st = D.GaussStats() if kind == "gau" else None
+        doc = D.documented(kind, mouts, lab, ncl, f["xslot"], st)
+        if stats is not None:
+            stats["doc"] = doc
+            stats["gauss"] = st
+            stats["mouts"] = mouts
+        if not doc["ambiguous"]:
+            dw = doc["wrong"]
+            wr = [i for i in range(n) if after[i] != before[i] + (1 if dw[i] else 0)]
+            if wr:
+                i = wr[0]
+                bad.append((f"{name}_evaluator: difficulty of example {i} went {before[i]} -> {after[i]} but the documented "
+                            f"classifier {'misclassifies' if dw[i] else 'recognises'} it (outputs "
+                            f"{[m[i] for m in mouts]!r}, documented tag {doc['tags'][i][0]}, label {lab[i]}); {len(wr)} rows differ",
+                            dict(tags, kind="doc-difficulty")))
+            if fit == fit and abs(fit - doc["fitness"]) > doc["tol"]:
+                bad.append((f"{name}_evaluator returned {fit!r}; the documented rule applied to the program's outputs gives "
+                            f"{doc['fitness']!r} (tolerance {doc['tol']:.3g})", dict(tags, kind="doc-fitness")))
+            dl = [x[0] for x in doc["tags"]]
+            if dl != tl and not wr:
+                i = [k for k in range(n) if dl[k] != tl[k]][0]
+                bad.append((f"{name}: the classifier tags example {i} as {tl[i]}, the documented rule as {dl[i]} "
+                            f"(outputs {[m[i] for m in mouts]!r})", dict(tags, kind="doc-tag")))
         return bad
     return bad
 
 
-def evaluate(exe, lines, drv_ok):
-    cpp, deaths = C.run_lines(exe, lines)
-    reqs = [lean_request(lines[i], cpp[i]) if i < len(cpp) else None for i in range(len(lines))]
-    lean = None
-    if drv_ok:
-        idx = [i for i, r in enumerate(reqs) if r is not None]
-        ans = C.run_driver("c05_driver", [reqs[i] for i in idx])
-        lean = [None] * len(lines)
-        for k, i in enumerate(idx):
-            lean[i] = ans[k] if k < len(ans) else None
-    return cpp, deaths, lean
+def expand_hist(line, ans):
+    """A history `hist …` answered `ok rec | rec | …` -> one (synthetic plain case, harness-style answer) per
+    evaluation: the evaluator must behave as a function of the data AT CALL TIME, so every evaluation of a
+    history is judged (model, oracle) exactly like a one-shot case on the rows / classes / counters the
+    dataframe held at that moment."""
+    t = line.split()
+    cls, kind, fast, xslot, prog = t[1] == "cls", t[2], t[3], t[4], t[5]
+    out = []
+    for j, rec in enumerate(ans[2:].strip().split(" | ")):
+        r = rec.split()
+        if not r or r[0].startswith("skip"):
+            out.append((None, rec.strip(), j))
+            continue
+        try:
+            db = r.index("dbefore")
+            if cls:
+                li = r.index("labels")
+                labels = r[li + 1:db]
+                n = len(labels)
+                before = r[db + 1:db + 1 + n]
+                body = "".join(f" {labels[i]} 0 0 {before[i]}" for i in range(n))
+                pl = f"{'clsf' if fast == '1' else 'cls'} {kind} {xslot} {prog} {n}" + body
+                pa = "ok " + " ".join(r[:db] + r[db + 1 + n:])
+            else:
+                ti, oi = r.index("targets"), r.index("outs")
+                targets = r[ti + 1:db]
+                n = len(targets)
+                before = r[db + 1:db + 1 + n]
+                body = "".join(f" {targets[i]} 0 0 {before[i]}" for i in range(n))
+                pl = f"reg {kind} {fast} {prog} {n}" + body
+                pa = "ok " + " ".join(r[:ti] + r[oi:])
+        except ValueError:
+            out.append((None, "malformed " + rec[:100], j))
+            continue
+        out.append((pl, pa, j))
+    return out
+
+
+def run_model(reqs, drv_ok):
+    if not drv_ok:
+        return None
+    idx = [i for i, r in enumerate(reqs) if r is not None]
+    ans = C.run_driver("c05_driver", [reqs[i] for i in idx])
+    lean = [None] * len(reqs)
+    for k, i in enumerate(idx):
+        lean[i] = ans[k] if k < len(ans) else None
+    return lean
+
+
+def big_oracle(line, cpp):
+    """scale-directed cases: a handful of wrong examples among 1e5 … 1e6 must still be counted"""
+    t, c = line.split(), cpp.split()
+    kind, fast, n, k = t[1], t[2] == "1", int(t[4]), int(t[5])
+    pos = sorted(int(x) for x in t[6:6 + k])
+    name = {"dyn": "dyn_slot", "gau": "gaussian", "bin": "binary"}.get(kind, kind)
+    tags = {"evaluator": name, "scale": n}
+    if c[:2] != ["ok", "fit"]:
+        return [(f"{name}_evaluator on {n} examples: answer {cpp[:100]}", dict(tags, kind="shape"))]
+    fit = untok(c[2])
+    moved = int(c[c.index("moved") + 1])
+    rows = [int(x) for x in c[c.index("rows") + 1:]]
+    cls = kind in ("dyn", "gau", "bin")
+    step = 5 if (fast and not cls) else 1
+    vis = [p for p in pos if p % step == 0 and p + step <= n]
+    nvis = n // step
+    bad = []
+    if fit != fit or fit > 0:
+        bad.append((f"{name}_evaluator on {n} examples returned {fit!r}", dict(tags, kind="nan" if fit != fit else "positive")))
+        return bad
+    if cls:
+        want = -float(len(vis))
+        tol = 1e-6 if kind == "gau" else 0.0
+    else:
+        if kind == "rmae":
+            errs = [200.0 * 1.0 / (abs(float(p % 7) - 3.0) + abs(float(p % 7) - 3.0 + 1.0)) for p in vis]
+        else:
+            errs = [1.0 for _ in vis]
+        want = -math.fsum(errs) / nvis
+        tol = 1e-9 * abs(want)
+    if abs(fit - want) > tol:
+        bad.append((f"{name}_evaluator{'.fast' if fast else ''} on {n} examples of which {len(vis)} are wrong returned {fit!r}; "
+                    f"documented {want!r}", dict(tags, kind="scale-fitness")))
+    if moved != len(vis) or rows[:20] != vis[:20]:
+        bad.append((f"{name}_evaluator{'.fast' if fast else ''} on {n} examples: the difficulty counter moved on {moved} rows "
+                    f"{rows[:8]}, the wrong examples are {vis[:8]}", dict(tags, kind="scale-difficulty")))
+    return bad
 
 
 def shrink(exe, line, still_fails):
     """drop rows of a reg / con / cls case while the oracle still fails"""
     t = line.split()
-    if t[0] not in ("reg", "con", "cls"):
+    if t[0] not in ("reg", "con", "conp", "cls", "clsf"):
         return line
-    at = {"reg": 4, "con": 5, "cls": 4}[t[0]]      # index of <n>
+    at = {"reg": 4, "con": 5, "conp": 6, "cls": 4, "clsf": 4}[t[0]]      # index of <n>
     head, rows = t[:at], t[at + 1:]
     rows = [rows[i:i + 4] for i in range(0, len(rows), 4)]
-    fast = t[0] != "cls" and t[at - 2] == "1"
+    fast = t[0] not in ("cls", "clsf") and t[at - 2] == "1"
 
     def mk(rs):
         return " ".join(head + [str(len(rs))] + [x for r in rs for x in r])
@@ -533,7 +903,7 @@ def shrink(exe, line, still_fails):
             rs = rows[:s] + rows[s + chunk:]
             if not rs or (fast and len(rs) < 100):
                 continue
-            if t[0] == "cls" and len({r[0] for r in rs}) < 2:
+            if t[0] in ("cls", "clsf") and len({r[0] for r in rs}) < 2:
                 continue
             cands.append(rs)
         if not cands:
@@ -559,6 +929,16 @@ def shrink(exe, line, still_fails):
 def run(chk, replay=None):
     rng = C.SplitMix(chk.seed)
     broken = []
+    # the error functors and issmall as the code has them now -> Vita/C05/Gen.lean
+    gen = os.path.join(C.LEAN, "Vita", "C05", "Gen.lean")
+    try:
+        names, changed = translate_errf.emit(gen)
+        chk.cov["translated_functors"] = names
+        chk.cov["gen_changed_vs_committed"] = bool(changed)
+    except Refuse as e:
+        # Gen.lean keeps its last (committed) content: the driver still runs, the differential below
+        # compares the code with the old text
+        broken.append("translator tools/translate_errf.py refuses the current evaluator.tcc / utility.h: %s" % e)
     ok, out = C.lake_build(["c05_driver"])
     drv_ok = ok
     if not ok:
@@ -582,30 +962,56 @@ def run(chk, replay=None):
         chk.cov["corpus_cases"] = len(lines)
         lines += gen_cases(chk, rng)
 
-    cpp, deaths, lean = evaluate(exe, lines, drv_ok)
+    if not replay:
+        lines += big_cases(chk, rng, searching=bool(broken))
+    cpp, deaths = C.run_lines(exe, lines)
     for idx, rc, se in deaths:
         chk.violation("harness died (rc=%d) on: %s\n%s" % (rc, lines[idx][:300], se[-1500:]),
                       {"line": lines[idx]}, tags={"evaluator": lines[idx].split()[1], "kind": "crash"})
 
-    ndis = 0
-    reported = set()
+    # units: one per plain case, one per evaluation of a history
+    units = []
     for i, line in enumerate(lines):
         if i >= len(cpp):
             break
+        if line.startswith("hist ") and cpp[i].startswith("ok"):
+            chk.count("case:hist:" + line.split()[2])
+            chk.seen(line)
+            for pl, pa, j in expand_hist(line, cpp[i]):
+                if pl is None:
+                    chk.count("hist_eval:" + pa.split()[0])
+                    if not pa.startswith("skip"):
+                        broken.append(f"harness answered `{pa[:200]}` inside `{line[:200]}`")
+                    continue
+                chk.count("hist_eval:judged")
+                if j > 0:
+                    chk.count("hist_eval:after_a_change_of_the_dataframe")
+                units.append((i, pl, pa, j))
+        else:
+            units.append((i, line, cpp[i], None))
+    lean = run_model([lean_request(pl, pa) if not (pa.startswith("died") or pa == "skipped") else None
+                      for _, pl, pa, _ in units], drv_ok)
+
+    ndis = 0
+    ngen = 0
+    reported = set()
+    for u, (i, line, c, hj) in enumerate(units):
         t = line.split()
-        c = cpp[i]
         if c.startswith("died") or c == "skipped":
             continue
-        key = t[0] + ":" + (t[1] if t[0] in ("reg", "cls") else t[2] if t[0] == "con" else "")
-        chk.count("case:" + key)
-        chk.seen(line, nontrivial=t[0] not in ("small",))
+        if hj is None:
+            key = t[0] + ":" + (t[1] if t[0] in ("reg", "cls", "clsf", "tev", "big") else t[2] if t[0] == "con" else
+                                t[3] if t[0] == "conp" else t[4] if t[0] == "gac" else "")
+            chk.count("case:" + key)
+            chk.seen(line, nontrivial=t[0] not in ("small",))
         if not c.startswith("ok") and t[0] != "small":
             chk.count("harness:" + c.split()[0])
-            broken.append(f"harness answered `{c[:200]}` to `{line[:200]}`")
+            broken.append(f"harness answered `{c[:200]}` to `{lines[i][:200]}`")
             continue
         # ---- distribution (measured) ----
-        if t[0] in ("reg", "con"):
-            at = 1 if t[0] == "reg" else 2
+        ostats = {}
+        if t[0] in ("reg", "con", "conp"):
+            at = {"reg": 1, "con": 2, "conp": 3}[t[0]]
             n = int(t[at + 3])
             cs = c.split()
             outs = cs[cs.index("outs") + 1:cs.index("outs") + 1 + n]
@@ -616,6 +1022,8 @@ def run(chk, replay=None):
                 chk.count("fast")
             if t[at + 2].startswith("t:"):
                 chk.count("team_programs")
+            if t[0] == "conp":
+                chk.count("penalty_type:" + t[1])
             fitv = untok(cs[2]) if cs[1] == "fit" else None
             if fitv is not None and fitv == 0:
                 chk.count("zero_fitness")
@@ -624,22 +1032,65 @@ def run(chk, replay=None):
             es = [doc_err(kind, untok(outs[j]), untok(rows[4 * j])) for j in range(n)]
             if any(not math.isfinite(e) for e in es):
                 chk.count("overflowing_error_cases")
-        elif t[0] == "cls":
+        elif t[0] in ("cls", "clsf"):
             n = int(t[4])
             chk.count("examples", n)
-            cs = cs2 = c.split()
+            cs2 = c.split()
             chk.count("classes:" + cs2[cs2.index("classes") + 1])
             if t[3].startswith("t:"):
                 chk.count("team_programs")
+            if t[0] == "clsf":
+                chk.count("fast")
+        elif t[0] == "gac":
+            chk.count("penalty_type:" + t[1])
+            if not math.isfinite(untok(t[5])):
+                chk.count("gac_nonfinite_objective")
+        elif t[0] in ("ga", "gaf", "de", "def"):
+            if not math.isfinite(untok(t[1])):
+                chk.count("nonfinite_objective:" + t[0])
         # ---- the property's own oracle ----
-        for what, tags in oracle(line, c):
+        verdicts = big_oracle(line, c) if t[0] == "big" else oracle(line, c, ostats)
+        if t[0] == "big":
+            chk.count("scale:%s" % t[4])
+        if t[0] in ("cls", "clsf") and "doc" in ostats:
+            # what the classification cases exercised (measured on the outputs of the real programs)
+            doc, gs, mouts = ostats["doc"], ostats["gauss"], ostats["mouts"]
+            k = "cls_" + t[1] + ":"
+            chk.count(k + ("ambiguous_not_judged_by_documented_rule" if doc["ambiguous"] else "judged_by_documented_rule"))
+            und = sum(1 for m in mouts for o in m if o is None)
+            if und:
+                chk.count(k + "cases_with_undefined_outputs")
+                chk.count(k + "undefined_outputs", und)
+            if any(o is not None and abs(o) > 1e7 for m in mouts for o in m):
+                chk.count(k + "cases_with_outputs_beyond_1e7")
+            if any(o is not None and abs(o) >= 1e300 for m in mouts for o in m):
+                chk.count(k + "cases_with_astronomical_outputs")
+            if all(o is None for m in mouts for o in m):
+                chk.count(k + "cases_all_outputs_undefined")
+            if gs is not None:
+                for nm, v in (("class_all_undefined", gs.class_all_undefined), ("class_zero_variance", gs.class_zero_variance),
+                              ("class_single_example", gs.class_single), ("identical_class_distributions", gs.identical),
+                              ("examples_all_probabilities_zero", gs.underflow)):
+                    if v:
+                        chk.count(k + "cases_with_" + nm)
+                for r in set(gs.ambiguous):
+                    chk.count(k + "ambiguous:" + r)
+            if doc["fitness"] is not None and doc["fitness"] == 0 and not doc["ambiguous"]:
+                chk.count(k + "zero_fitness")
+        for what, tags in verdicts:
             sig = (tags.get("evaluator"), tags.get("kind"))
             chk.count("oracle_fail:%s/%s" % sig)
             if sig in reported:
                 continue
             reported.add(sig)
             small = line
-            if not replay:
+            if hj is not None:
+                # an evaluation inside a history: the replay is the whole history
+                small, ans = lines[i], cpp[i]
+                what = (f"evaluation #{hj + 1} of a history in which the dataframe changes under one evaluator object "
+                        f"(the evaluator must score the data it holds at call time): " + what)
+                tags = dict(tags, history=True)
+            elif not replay and t[0] != "big":
                 small = shrink(exe, line, lambda l, a, s=sig: any((tg.get("evaluator"), tg.get("kind")) == s
                                                                  for _, tg in oracle(l, a)))
                 a2, _ = C.run_lines(exe, [small])
@@ -652,20 +1103,48 @@ def run(chk, replay=None):
                                  "how": "echo '<line>' | build/asan/c05_eval   (or check.py C05 --replay <this file>)"},
                           tags=tags)
         # ---- model vs code ----
-        if lean is not None and lean[i] is not None:
+        if lean is not None and lean[u] is not None:
             want = cpp_canon(line, c)
-            if lean[i].strip() != want.strip():
+            mod, sep, genans = lean[u].partition(" ;; ")
+            mod = mod.strip()
+            # lines that do not involve the functors carry no generated part
+            genans = want.strip() if not sep else (mod if genans.strip() == "=" else genans.strip())
+            if mod != want.strip():
                 ndis += 1
                 if ndis <= 3:
-                    broken.append(f"model and compiled evaluator disagree on `{line[:400]}`: "
-                                  f"model `{lean[i][:300]}`, code `{want[:300]}`")
-        if i % 397 == 0:
+                    broken.append(f"model and compiled evaluator disagree on `{(lines[i] if hj is not None else line)[:400]}`"
+                                  f"{' (evaluation #%d of the history)' % (hj + 1) if hj is not None else ''}: "
+                                  f"model `{mod[:300]}`, code `{want[:300]}`")
+            if genans != want.strip():
+                ngen += 1
+                if ngen <= 2:
+                    broken.append(f"the terms generated from the clang AST (Vita/C05/Gen.lean) and the compiled functors "
+                                  f"disagree on `{line[:400]}`: generated `{genans[:300]}`, code `{want[:300]}`")
+        if u % 397 == 0:
             chk.sample({"case": line[:160], "code": cpp_canon(line, c)[:120],
-                        "model": (lean[i][:120] if lean and lean[i] else None)})
+                        "model ;; generated": (lean[u][:120] if lean and lean[u] else None)})
     chk.cov["model_vs_code_disagreements"] = ndis
+    chk.cov["generated_terms_vs_code_disagreements"] = ngen
     chk.cov["cases"] = len(lines)
 
     concrete = [v for v in chk.violations if not v[2]]
+    if broken and not concrete and not chk.known_hit and not replay and chk.tier == "quick":
+        # SEARCH PHASE: something no longer checks and nothing concrete was found – the directed large datasets
+        extra = big_cases(chk, rng, searching=True)
+        ans, _ = C.run_lines(exe, extra)
+        chk.cov["search_phase_cases"] = len(extra)
+        for l, a in zip(extra, ans):
+            if not a.startswith("ok"):
+                continue
+            for what, tags in big_oracle(l, a):
+                sig = (tags.get("evaluator"), tags.get("kind"))
+                if sig in reported:
+                    continue
+                reported.add(sig)
+                chk.violation(what, {"line": l, "harness_answer": a[:2000],
+                                     "how": "echo '<line>' | build/asan/c05_eval   (or check.py C05 --replay <this file>)"},
+                              tags=tags)
+        concrete = [v for v in chk.violations if not v[2]]
     if broken and not concrete and not chk.known_hit:
         for b in broken[:3]:
             chk.violation(b, {"broken": b, "searched": f"{len(lines)} evaluator runs judged by the property's own oracle "
